@@ -86,6 +86,7 @@ TraceNext == TCtor \/ TSetupBegin \/ TSetupBuilt \/ TSetupThrew \/ TSolveThrew \
 TraceSpec == TraceInit /\ [][TraceNext]_tvars
 
 NotAccepted == l <= N
+ASSUME N > 0      \* a missing or empty recording must never count as an accepted one
 ASSUME TLCSet(1, 0)
 Progress == IF TLCGet(1) < l THEN TLCSet(1, l) /\ PrintT(<<"@@L", l>>) ELSE TRUE
 \* instructions never pile up beyond what any marker could explain
